@@ -299,6 +299,53 @@ func c19Parts(run *vf.Run, dir string) {
 	}
 }
 
+// c19Formats: every registered audit format x part lists with and without the matched-rules part K: a
+// transaction with a fired audit-enabled rule writes exactly one record and the writer does not panic.
+func c19Formats(run *vf.Run, dir string) {
+	for _, format := range []string{"json", "jsonlegacy", "native", "ocsf"} {
+		for _, parts := range []string{"ABHKZ", "ABHZ", "ABKZ", "AZ", "ABCEFHIJKZ"} {
+			path := filepath.Join(dir, "fmt-"+format+"-"+parts+".log")
+			text := fmt.Sprintf("SecRuleEngine On\nSecRequestBodyAccess On\nSecAuditEngine On\nSecAuditLogParts %s\nSecAuditLogType Serial\nSecAuditLogFormat %s\nSecAuditLog %s\nSecAction \"id:1,phase:1,pass,log,auditlog,msg:'m1'\"\nSecAction \"id:2,phase:2,pass,nolog,auditlog,msg:'m2',logdata:'d'\"\n", parts, format, path)
+			w, err := coraza.NewWAF(coraza.NewWAFConfig().WithDirectives(text))
+			if err != nil {
+				run.Inconclusive("audit format configuration rejected: %v\n%s", err, text)
+				return
+			}
+			p := ""
+			func() {
+				defer func() {
+					if r := recover(); r != nil {
+						p = fmt.Sprint(r)
+					}
+				}()
+				tx := w.NewTransactionWithID("tx-fmt")
+				tx.ProcessConnection("10.0.0.1", 1, "10.0.0.2", 80)
+				tx.ProcessURI("/p?a=1", "POST", "HTTP/1.1")
+				tx.AddRequestHeader("Content-Type", "application/x-www-form-urlencoded")
+				tx.ProcessRequestHeaders()
+				_, _, _ = tx.WriteRequestBody([]byte("b=2"))
+				_, _ = tx.ProcessRequestBody()
+				tx.AddResponseHeader("Content-Type", "text/plain")
+				tx.ProcessResponseHeaders(200, "HTTP/1.1")
+				tx.ProcessLogging()
+				_ = tx.Close()
+			}()
+			closeAny(w)
+			run.Eval("format-" + format + "-" + parts)
+			if p != "" {
+				run.Violate(vf.Violation{Signature: "audit:panic|format:" + format, What: fmt.Sprintf("SecAuditLogFormat %s with SecAuditLogParts %s: writing the record of a transaction with fired audit-enabled rules panicked: %s", format, parts, p),
+					Replay: map[string]any{"directives": text}})
+				continue
+			}
+			b, _ := os.ReadFile(path)
+			if !strings.Contains(string(b), "tx-fmt") {
+				run.Violate(vf.Violation{Signature: "audit:record-missing|format:" + format, What: fmt.Sprintf("SecAuditLogFormat %s with SecAuditLogParts %s: no record carrying the transaction id was written (%d bytes in the log)", format, parts, len(b)),
+					Replay: map[string]any{"directives": text, "log": string(b)}})
+			}
+		}
+	}
+}
+
 // c19Stress: concurrent transactions sharing one serial log file; records atomic and well-formed.
 func c19Stress(run *vf.Run) {
 	dir, _ := os.MkdirTemp("", "verif-c19-")
@@ -308,6 +355,7 @@ func c19Stress(run *vf.Run) {
 		return
 	}
 	c19ConcurrentWriter(run, dir)
+	c19Formats(run, dir)
 	nasty := []string{"plain", "quo\"te", "new\nline", "--abcdefghij-Z--", "back\\slash", "tab\there", "unié\xff", "{\"json\":1}"}
 	G := vf.Pick(run, 8, 16)
 	N := vf.Pick(run, 150, 1500)
